@@ -128,7 +128,7 @@ func (r *runReport) finish() int {
 				continue
 			}
 			path, confirmed := r.writeReplay(o)
-			if baseSet[o.Name] || !hasBase || confirmed {
+			if baseSet[o.Name] || !hasBase || confirmed || o.Definite {
 				sfx := ""
 				if !confirmed {
 					sfx = " no-failing-input-found"
